@@ -426,7 +426,24 @@ pub fn history(cfg: &Cfg, rep: &mut Report, h: u64, steps: usize, e2e: bool) {
                     rep.count("claims_sharing_data_across_topics");
                 }
             }
-            let defect = if rng.chance(1, 2) { 0 } else { 1 + rng.below(10) };
+            // the library's own encoder of the recommended layout agrees with the bytes built here, and refuses
+            // an expiry that is not later than the creation time
+            if data.len() == 20 {
+                use stellar_tokens::rwa::claim_issuer::{decode_claim_data_expiration, encode_claim_data_expiration};
+                let created = u64::from_be_bytes(data[..8].try_into().unwrap());
+                let tail = Bytes::from_slice(e, &data[16..]);
+                let enc = std::panic::catch_unwind(std::panic::AssertUnwindSafe(|| encode_claim_data_expiration(e, created, vu, &tail)));
+                let same = matches!(&enc, Ok(b) if b.iter().collect::<Vec<u8>>() == data);
+                rep.check("encode", same, "C15/diff/encode_claim_data_expiration/differs-from-documented-layout", || format!("created_at {} valid_until {vu} tail {:?}: library gives {:?}, the documented layout is {data:?}", created, &data[16..], enc.as_ref().map(|b| b.iter().collect::<Vec<u8>>()).map_err(|_| crate::last_panic())));
+                let dec = std::panic::catch_unwind(std::panic::AssertUnwindSafe(|| decode_claim_data_expiration(e, &Bytes::from_slice(e, &data))));
+                let ok = matches!(&dec, Ok((c, v, d)) if *c == created && *v == vu && d.iter().collect::<Vec<u8>>() == data[16..]);
+                rep.check("encode", ok, "C15/diff/decode_claim_data_expiration/differs-from-documented-layout", || format!("decoding {data:?}: {:?}", dec.as_ref().map(|(c, v, d)| (*c, *v, d.iter().collect::<Vec<u8>>())).map_err(|_| crate::last_panic())));
+                let bad_vu = if rng.chance(1, 2) { created } else { rng.below(created) };
+                let bad = std::panic::catch_unwind(std::panic::AssertUnwindSafe(|| encode_claim_data_expiration(e, created, bad_vu, &tail)));
+                rep.check("encode", bad.is_err(), "C15/diff/encode_claim_data_expiration/accepted-expiry-not-after-creation", || format!("created_at {} valid_until {bad_vu} was encoded", created));
+                rep.count("claim_data_encodings_compared");
+            }
+            let defect = if rng.chance(1, 2) { 0 } else { 1 + rng.below(11) };
             let (mt, mid, mis, mn) = match defect {
                 1 => (t + 1, idi, ii, cur_nonce),
                 2 => (t, (idi + 1) % nid, ii, cur_nonce),
@@ -458,6 +475,13 @@ pub fn history(cfg: &Cfg, rep: &mut Report, h: u64, steps: usize, e2e: bool) {
                     send_data = (ts - 10).to_be_bytes().to_vec();
                     send_data.extend_from_slice(&ts.to_be_bytes());
                     send_data.extend_from_slice(&[1, 2, 3, 4]);
+                    let m2 = claim_message(e, &issuers[ii], &identities[idi], t, cur_nonce, &send_data);
+                    sig = key.sign(&m2);
+                }
+                11 => {
+                    // no room for the two time stamps: properly signed, but such data says nothing about its
+                    // expiry and the issuer (which asks the library's `is_claim_expired`) cannot confirm it
+                    send_data.truncate(*rng.pick(&[0usize, 1, 8, 15]));
                     let m2 = claim_message(e, &issuers[ii], &identities[idi], t, cur_nonce, &send_data);
                     sig = key.sign(&m2);
                 }
@@ -643,7 +667,7 @@ pub fn history(cfg: &Cfg, rep: &mut Report, h: u64, steps: usize, e2e: bool) {
 }
 
 pub fn run(cfg: &Cfg, rep: &mut Report) {
-    rep.rule = "Seeded histories on the real stack (claim-topics-and-issuers, identity registry storage, identity claims, identity verifier, claim issuer assembled from the library helpers): registry edits (topics with several, one and ZERO issuers; removed and re-added topics and issuers; 'currently trusted' is taken from the edit history and compared with the registry's own answer), a fourth, scripted issuer that confirms, fails or RETURNS false, allow/remove key (also the bytes of a real key under another scheme number), claims of one identity sharing their data across topics, nonce bump, revoke/un-revoke, time advance past valid_until, add_claim with genuine or single-defect claims (wrong topic / identity / issuer / nonce in the signed message, data or signature altered, truncated, other scheme, expired, foreign key) signed with real Ed25519 / P-256 / secp256k1 keys. The account -> identity link is edited too (modify / remove / add again / recover; two accounts may share one identity). After every step verify_identity for 4 accounts and (every 3rd step) is_claim_valid for every held claim are compared with the iff-oracle. Distinct case = (registry shape, verdict class, outcome) / (scheme, defect or invalidation kind, outcome).".into();
+    rep.rule = "Seeded histories on the real stack (claim-topics-and-issuers, identity registry storage, identity claims, identity verifier, claim issuer assembled from the library helpers): registry edits (topics with several, one and ZERO issuers; removed and re-added topics and issuers; 'currently trusted' is taken from the edit history and compared with the registry's own answer), a fourth, scripted issuer that confirms, fails or RETURNS false, allow/remove key (also the bytes of a real key under another scheme number), claims of one identity sharing their data across topics, nonce bump, revoke/un-revoke, time advance past valid_until, add_claim with genuine or single-defect claims (wrong topic / identity / issuer / nonce in the signed message, data or signature altered, truncated, other scheme, expired, foreign key, data too short to carry its time stamps); the library's encoder / decoder of the claim-data layout against the bytes built here signed with real Ed25519 / P-256 / secp256k1 keys. The account -> identity link is edited too (modify / remove / add again / recover; two accounts may share one identity). After every step verify_identity for 4 accounts and (every 3rd step) is_claim_valid for every held claim are compared with the iff-oracle. Distinct case = (registry shape, verdict class, outcome) / (scheme, defect or invalidation kind, outcome).".into();
     let nh = cfg.pick(16u64, 100);
     let steps = cfg.pick(120usize, 250);
     for k in 0..nh {
